@@ -13,6 +13,7 @@ import (
 	"sort"
 	"strings"
 	"sync"
+	"sync/atomic"
 
 	"github.com/getkin/kin-openapi/openapi3"
 	"github.com/getkin/kin-openapi/openapi3filter"
@@ -109,6 +110,11 @@ func c14Options() *openapi3filter.Options {
 // docVerdictRequest asks the independent validator; reasons are the schema keywords (or
 // decoding stages) that reject the request.
 func docVerdictRequest(o *c14Op, sreq *http.Request, body []byte) (ok bool, reasons []string, detail string) {
+	ok, reasons, detail, _ = docVerdictRequestErr(o, sreq, body)
+	return
+}
+
+func docVerdictRequestErr(o *c14Op, sreq *http.Request, body []byte) (ok bool, reasons []string, detail string, verr error) {
 	req := rebuildRequest(sreq, body)
 	in := &openapi3filter.RequestValidationInput{Request: req, PathParams: pathParamsOf(o.tmpl, req), Route: o.route, Options: c14Options()}
 	var err error
@@ -121,9 +127,86 @@ func docVerdictRequest(o *c14Op, sreq *http.Request, body []byte) (ok bool, reas
 		err = openapi3filter.ValidateRequest(context.Background(), in)
 	}()
 	if err == nil {
-		return true, nil, ""
+		return true, nil, "", nil
 	}
-	return false, oaReasons(err), truncate(strings.ReplaceAll(err.Error(), "\n", " | "), 500)
+	return false, oaReasons(err), truncate(strings.ReplaceAll(err.Error(), "\n", " | "), 500), err
+}
+
+// blamePlace finds the designed place a validator error points at: the parameter of a request
+// error, the header named by a response error, the first element of the JSON pointer of a
+// schema error inside a body.
+func blamePlace(err error, l *Layout) *Place {
+	var found *Place
+	byLoc := func(loc, wire string) *Place {
+		for _, p := range l.Places {
+			if p.Loc == loc && strings.EqualFold(p.Wire, wire) {
+				return p
+			}
+		}
+		return nil
+	}
+	var walk func(e error, inBody bool)
+	walk = func(e error, inBody bool) {
+		if e == nil || found != nil {
+			return
+		}
+		switch x := e.(type) {
+		case openapi3.MultiError:
+			for _, c := range x {
+				walk(c, inBody)
+			}
+		case *openapi3filter.RequestError:
+			if x.Parameter != nil {
+				found = byLoc(x.Parameter.In, x.Parameter.Name)
+				return
+			}
+			walk(x.Err, true)
+		case *openapi3filter.ResponseError:
+			if i := strings.Index(x.Reason, `header "`); i >= 0 {
+				name := x.Reason[i+8:]
+				if j := strings.Index(name, `"`); j >= 0 {
+					name = name[:j]
+				}
+				if strings.EqualFold(name, "Set-Cookie") {
+					for _, p := range l.Places {
+						if p.Loc == spec.LocCookie {
+							found = p
+							return
+						}
+					}
+				}
+				found = byLoc(spec.LocHeader, name)
+				return
+			}
+			walk(x.Err, true)
+		case *openapi3.SchemaError:
+			if inBody {
+				if ptr := x.JSONPointer(); len(ptr) > 0 {
+					if l.Whole && len(l.Places) == 1 {
+						found = l.Places[0]
+						return
+					}
+					if p := l.ByAttr(ptr[0]); p != nil {
+						found = p
+						return
+					}
+				}
+				if l.BodyKind == "attr" || l.Whole {
+					for _, p := range l.Places {
+						if p.Loc == spec.LocBody {
+							found = p
+							return
+						}
+					}
+				}
+			}
+			walk(x.Origin, inBody)
+		default:
+			walk(errors.Unwrap(e), inBody)
+		}
+	}
+	walk(err, false)
+	return found
 }
 
 // oaReasons walks a kin-openapi error tree and returns the sorted set of rejecting keywords.
@@ -370,6 +453,20 @@ func c14Feat(s *Svc, m *spec.Method, p *Place) string {
 	return fmt.Sprintf("valid=none loc=%s req=%s type=%s", loc, req, tc)
 }
 
+// c14FeatResp is the feature part of a response-side signature (the value class and the
+// requiredness do not matter there).
+func c14FeatResp(s *Svc, m *spec.Method, p *Place) string {
+	f := m.Feat
+	loc, tc := f["loc"], "none"
+	if p != nil {
+		loc, tc = p.Loc, typeClass(s.Spec, p.T)
+	}
+	if f["valid"] != "" {
+		return fmt.Sprintf("valid=%s pos=%s loc=%s type=%s", f["valid"], f["pos"], loc, tc)
+	}
+	return fmt.Sprintf("valid=none loc=%s type=%s", loc, tc)
+}
+
 func runC14(s *Svc, m *spec.Method, tier string) *MethodResult {
 	r := &MethodResult{}
 	if m.HTTP == nil {
@@ -488,6 +585,10 @@ func runC14(s *Svc, m *spec.Method, tier string) *MethodResult {
 				continue
 			}
 			seen[spec.Canon(ev)] = true
+			if c02DeliveryClass(sp, rl, ev) {
+				r.note("values_left_to_C03_delivery_classes", 1)
+				continue
+			}
 			if emptyRequiredOutsideBody(rl, ev) || ambiguousEmpty(sp, m.Result, ev) {
 				r.note("values_ambiguous_nil_vs_empty_collection", 1)
 				continue
@@ -505,6 +606,12 @@ func runC14(s *Svc, m *spec.Method, tier string) *MethodResult {
 	}
 	if m.Feat["family"] == "L2-errors" {
 		c14Errors(s, m, o, r)
+	}
+	if n := atomic.SwapInt64(&mediaTypeDiffers, 0); n > 0 {
+		r.note("responses_whose_json_media_type_is_not_the_documented_one_(validated_against_the_status_code's_schema)", n)
+	}
+	if n := atomic.SwapInt64(&formatOutsideTables, 0); n > 0 {
+		r.HarnessErr = append(r.HarnessErr, fmt.Sprintf("c14: %d format verdicts were asked for strings outside the constructive tables", n))
 	}
 	return r
 }
@@ -546,8 +653,11 @@ func c14Request(s *Svc, m *spec.Method, l *Layout, o *c14Op, v any, r *MethodRes
 		return nil
 	}
 	accepted := call.Invoked == 1
-	docOK, reasons, detail := docVerdictRequest(o, call.ServerReq, call.ReqBody)
+	docOK, reasons, detail, verr := docVerdictRequestErr(o, call.ServerReq, call.ReqBody)
 	p, pv := suspect(l, sentN)
+	if bp := blamePlace(verr, l); bp != nil {
+		p, pv = bp, placeValue(l, bp, sentN)
+	}
 	var sigs []string
 	fail := func(sig, what string) {
 		sigs = append(sigs, sig)
@@ -795,12 +905,33 @@ func textClass14(s string) string {
 	return "overflow-32"
 }
 
+// mediaTypeDiffers counts responses whose JSON media type is not the documented one.
+var mediaTypeDiffers int64
+
 // docVerdictResponse validates the recorded response against the documented response of its
 // status code.
-func docVerdictResponse(o *c14Op, call *Call) (ok bool, reasons []string, detail string) {
+func docVerdictResponse(o *c14Op, call *Call) (ok bool, reasons []string, detail string, verr error) {
 	req := rebuildRequest(call.ServerReq, call.ReqBody)
 	rin := &openapi3filter.RequestValidationInput{Request: req, PathParams: pathParamsOf(o.tmpl, req), Route: o.route, Options: c14Options()}
-	in := &openapi3filter.ResponseValidationInput{RequestValidationInput: rin, Status: call.Rec.Code, Header: call.Rec.Header().Clone(), Options: c14Options()}
+	hdr := call.Rec.Header().Clone()
+	opts := c14Options()
+	// The statement speaks of "the documented response schema for its status code": when the
+	// response's JSON media type is not the (single) documented one, the body is still validated
+	// against that schema (the media type difference itself is counted, not asserted).
+	var direct *openapi3.SchemaRef
+	if rr := o.op.Responses.Status(call.Rec.Code); rr != nil && rr.Value != nil && len(rr.Value.Content) == 1 && call.Rec.Body.Len() > 0 {
+		if rr.Value.Content.Get(hdr.Get("Content-Type")) == nil {
+			mt, _, _ := strings.Cut(hdr.Get("Content-Type"), ";")
+			if mt = strings.TrimSpace(mt); mt == "application/json" || strings.HasSuffix(mt, "+json") {
+				for _, c := range rr.Value.Content {
+					direct = c.Schema
+				}
+				opts.ExcludeResponseBody = true
+				atomic.AddInt64(&mediaTypeDiffers, 1)
+			}
+		}
+	}
+	in := &openapi3filter.ResponseValidationInput{RequestValidationInput: rin, Status: call.Rec.Code, Header: hdr, Options: opts}
 	in.SetBodyBytes(call.Rec.Body.Bytes())
 	var err error
 	func() {
@@ -810,11 +941,21 @@ func docVerdictResponse(o *c14Op, call *Call) (ok bool, reasons []string, detail
 			}
 		}()
 		err = openapi3filter.ValidateResponse(context.Background(), in)
+		if err == nil && direct != nil && direct.Value != nil {
+			var val any
+			dec := json.NewDecoder(bytes.NewReader(call.Rec.Body.Bytes()))
+			dec.UseNumber()
+			if derr := dec.Decode(&val); derr != nil {
+				err = &openapi3filter.ResponseError{Input: in, Reason: "failed to decode response body", Err: derr}
+			} else if verr := direct.Value.VisitJSON(val, openapi3.MultiErrors(), openapi3.VisitAsResponse()); verr != nil {
+				err = &openapi3filter.ResponseError{Input: in, Reason: "response body doesn't match schema " + direct.Ref, Err: verr}
+			}
+		}
 	}()
 	if err == nil {
-		return true, nil, ""
+		return true, nil, "", nil
 	}
-	return false, oaReasons(err), truncate(strings.ReplaceAll(err.Error(), "\n", " | "), 500)
+	return false, oaReasons(err), truncate(strings.ReplaceAll(err.Error(), "\n", " | "), 500), err
 }
 
 func c14Result(s *Svc, m *spec.Method, o *c14Op, v any, r *MethodResult, report bool) []string {
@@ -847,7 +988,7 @@ func c14Result(s *Svc, m *spec.Method, o *c14Op, v any, r *MethodResult, report 
 		}
 		return nil
 	}
-	ok, reasons, detail := docVerdictResponse(o, call)
+	ok, reasons, detail, verr := docVerdictResponse(o, call)
 	if ok {
 		if report {
 			r.outcome(fmt.Sprintf("response-conforms status=%d", call.Rec.Code))
@@ -857,8 +998,11 @@ func c14Result(s *Svc, m *spec.Method, o *c14Op, v any, r *MethodResult, report 
 		}
 		return nil
 	}
-	p, pv := suspect(rl, v)
-	sig := fmt.Sprintf("C14 response-nonconforming kind=success status=%d %s value=%s why=%s", call.Rec.Code, c14Feat(s, m, p), valueClass(pv), strings.Join(reasons, "+"))
+	p, _ := suspect(rl, v)
+	if bp := blamePlace(verr, rl); bp != nil {
+		p = bp
+	}
+	sig := fmt.Sprintf("C14 response-nonconforming kind=success status=%d %s why=%s", call.Rec.Code, c14FeatResp(s, m, p), strings.Join(reasons, "+"))
 	if report {
 		r.outcome("response-nonconforming")
 		cs := map[string]any{"design": s.Design, "service": s.Service.Name, "method": m.Name, "result": spec.JSONable(v), "status": call.Rec.Code, "response_headers": call.Rec.Header(),
@@ -905,7 +1049,7 @@ func c14Errors(s *Svc, m *spec.Method, o *c14Op, r *MethodResult) {
 				r.HarnessErr = append(r.HarnessErr, "c14: no type for "+d.Type.Ref)
 				continue
 			}
-			for i, val := range []spec.Obj{{"name": d.Name, "msg": "m1", "code": int64(7)}, {"name": d.Name}, {"name": d.Name, "msg": "", "code": int64(0)}} {
+			for i, val := range []spec.Obj{{"name": d.Name, "msg": "m1", "code": int64(7)}, {"name": d.Name}, {"name": d.Name, "code": int64(0)}} {
 				val := val
 				cases = append(cases, ecase{fmt.Sprintf("custom-%d", i), d.Name, func() (error, error) {
 					pv := reflect.New(rt)
@@ -969,7 +1113,7 @@ func c14Errors(s *Svc, m *spec.Method, o *c14Op, r *MethodResult) {
 				}
 				return nil
 			}
-			ok, reasons, detail := docVerdictResponse(o, call)
+			ok, reasons, detail, _ := docVerdictResponse(o, call)
 			if ok {
 				if report {
 					r.outcome(fmt.Sprintf("error-response-conforms status=%d", call.Rec.Code))
